@@ -225,6 +225,7 @@ def documentedError (m : String) : String :=
   else if m.startsWith "Encountered null only field" then "null field"
   else if m.startsWith "Encountered enums without data" then "enum without data"
   else if m.startsWith "out of range integral type conversion attempted" then "more than 128 variants"
+  else if m.startsWith "TryFromIntError: out of range integral type conversion attempted" then "more than 128 variants"
   else if m.startsWith "The root type cannot be nullable" then "the root cannot be nullable"
   else if m.startsWith "No records found to determine schema" then "the root must be a struct"
   else if m.startsWith "Schema tracing is not directly supported for the root data type" then "the root must be a struct"
